@@ -56,6 +56,8 @@ type CaseOpts struct {
 	Debug        bool           `json:"debug,omitempty"`
 	Stats        bool           `json:"stats,omitempty"`
 	DupOpts      bool           `json:"dup_opts,omitempty"`   // every option value passed twice
+	PoisonBefore uint64         `json:"poison_before,omitempty"` // an extra call under this tiny budget first, result thrown away
+	CallAfter    bool           `json:"call_after,omitempty"`    // an extra call on other bytes afterwards, before the value is looked at
 	OptOrder     int            `json:"opt_order,omitempty"`  // the option list is rotated by this much and, when odd, reversed
 	Via          string         `json:"via,omitempty"`        // "" Parse, "reader" ParseReader, "file" ParseFile (Filename names the file)
 	WarmStats    bool           `json:"warm_stats,omitempty"` // the Stats value was used by an earlier parse
